@@ -28,11 +28,12 @@ func init() {
 			NotCovered: "that the ring buffer of golibs behaves as a ring (trusted), so that R7's structure (limit+1 slots, push before read, comparison with " +
 				"the interval) yields an exact sliding window; the expiry timing of the backoff tables (temporal facts outside static reach); the allowlist's own matching.",
 			Rules: map[string]string{"C09-R1": "middleware gate tables", "C09-R2": "limiter check order, family selection, keying", "C09-R3": "profile limiter table",
-				"C09-R4": "window counter under its lock", "C09-R8": "the dynamic allowlist is replaced only after a successful load (a failed refresh keeps the previous allowlist)", "C09-R7": "window counter structure: the ring holds limit+1 time stamps; every event (also one that is dropped) is pushed before the oldest one is read; the event is above the limit iff the oldest kept stamp is set and within the interval", "C09-R5": "every estimated response is counted", "C09-R6": "configuration-to-limiter field map (each family's count, interval and key length under its own name)"},
+				"C09-R4": "window counter under its lock", "C09-R9": "builder wiring: the configured allowlist is the persistent part of the dynamic allowlist", "C09-R8": "the dynamic allowlist is replaced only after a successful load (a failed refresh keeps the previous allowlist)", "C09-R7": "window counter structure: the ring holds limit+1 time stamps; every event (also one that is dropped) is pushed before the oldest one is read; the event is above the limit iff the oldest kept stamp is set and within the interval", "C09-R5": "every estimated response is counted", "C09-R6": "configuration-to-limiter field map (each family's count, interval and key length under its own name)"},
 		}})
 }
 
 func runC09(c *an.Ctx) {
+	c09AllowlistWiring(c)
 	c09Allowlist(c)
 	c09Window(c)
 	c.Floor("C09-R1", 3)
@@ -571,4 +572,39 @@ func c09Allowlist(c *an.Ctx) {
 	if n == 0 {
 		c.Und("C09-R8", k+" commit", fn.Pos(), "the allowlist Update call was not found")
 	}
+}
+
+// c09AllowlistWiring checks the construction of the rate-limit allowlist in the
+// builder: the statically configured subnets are the persistent part (first
+// argument of NewDynamicAllowlist), which refreshes never replace.
+func c09AllowlistWiring(c *an.Ctx) {
+	c.Floor("C09-R9", 1)
+	const k = "cmd.(*builder).initRateLimiter"
+	fn := c.Fn(k)
+	if fn == nil {
+		c.Und("C09-R9", k, token.NoPos, "anchor not found")
+		return
+	}
+	c.Analysed(k)
+	calls := an.CallsTo(fn, "dnsserver/ratelimit.NewDynamicAllowlist")
+	if len(calls) != 1 {
+		c.Und("C09-R9", k+" allowlist", fn.Pos(), "expected one NewDynamicAllowlist call, found %d", len(calls))
+		return
+	}
+	args := calls[0].Common().Args
+	fromConf := false
+	w := &an.Walker{P: c.Prog, NoFieldJoin: true,
+		Visit: func(v ssa.Value) bool {
+			if ap, ok := an.AccessPath(v); ok && strings.HasSuffix(ap, ".Allowlist.List") {
+				fromConf = true
+				return true
+			}
+			return false
+		},
+		ThroughCalls: func(cl *ssa.Call) ([]ssa.Value, bool) { return cl.Call.Args, true },
+	}
+	w.Walk(args[0])
+	c.Check(fromConf && an.IsNilConst(args[1]), "C09-R9", k+" static allowlist", calls[0].Pos(),
+		"the configured subnets form the persistent part of the allowlist; the dynamic part starts empty",
+		"the configured allowlist is not passed as the persistent part (or the dynamic part is pre-filled): the first refresh replaces the operator's entries and allowlisted clients are rate limited")
 }
